@@ -562,10 +562,16 @@ pub fn run_writer_t<T: Spec>(ops: &[WOp], wscript: &WScript, finish: bool) -> WT
             Ok(Err(e)) => into_inner = Some(Err(conv_werr(&e))),
             Err(p) => panic = Some(panic_msg(p)),
         }
-        // flush() is what into_inner() runs first; calling into_inner() now returns the sink
-        match guarded((move || w.into_inner())) {
-            Ok(Ok(s)) => Some(s),
-            Ok(Err(_)) | Err(_) => None,
+        if matches!(into_inner, Some(Ok(()))) {
+            // flush() is what into_inner() runs first; calling into_inner() now returns the sink
+            match guarded(move || w.into_inner()) {
+                Ok(Ok(s)) => Some(s),
+                Ok(Err(_)) | Err(_) => None,
+            }
+        } else {
+            // into_inner() would fail the same way and drop the sink with the writer: look at what
+            // the sink holds instead
+            Some(std::mem::replace(w.get_mut(), SimWriter::new(WScript::default())))
         }
     } else {
         // peek without finishing
